@@ -35,7 +35,8 @@ def run(ctx):
     nill = 0
     for si, lst in by.items():
         e, law = ss[si]["edits"][0]["e"], ss[si]["edits"][0]["law"]
-        tag = "%s|%s%s" % (ss[si]["net"]["t"], e["k"], e["s"])
+        posed = "illposed" if (e["k"] == "MakeFree" and not law["adjustable"]) else "wellposed"
+        tag = "%s|%s%s|%s" % (ss[si]["net"]["t"], e["k"], e["s"], posed)
         classes = {}
         for alg, run, sv2, job in lst:
             cls = gl.classify(run)
